@@ -37,9 +37,11 @@ var hookSpecs = []hookSpec{
 		"IsWaitingSemiSyncAck", "GetStartupTime", "UpdateExternalCAFile", "SetReadOnlyWithForce",
 	}},
 	{"internal/util/util.go", "", []string{"RunParallel"}},
-	{"internal/app/util.go", "", []string{"getNodeStatesInParallel"}},
+	{"internal/dcs/zk.go", "", []string{"retry"}},
+	{"internal/app/util.go", "", []string{"getNodeStatesInParallel", "findMostRecentNodeAndDetectSplitbrain"}},
+	{"internal/app/replication.go", "App", []string{"optimizationPhase"}},
 	{"internal/app/timing_tracker.go", "App", []string{"logTiming"}},
-	{"internal/app/app.go", "App", []string{"getLocalDaemonState"}},
+	{"internal/app/app.go", "App", []string{"getLocalDaemonState", "updateActiveNodes", "performSwitchover"}},
 	{"internal/app/node_state/node_state.go", "DiskState", []string{"Usage"}},
 	{"internal/mysql/gtids/wrapper.go", "", []string{"ParseGtidSet", "GTIDDiff"}},
 	{"internal/mysql/gtids/utils.go", "", []string{"IsSplitBrained"}},
@@ -50,6 +52,7 @@ var callRewrites = map[string]string{
 	"time.Now":        "verifnd.Now",
 	"time.Since":      "verifnd.Since",
 	"time.Sleep":      "verifnd.Sleep",
+	"time.AfterFunc":  "verifnd.AfterFunc",
 	"os.WriteFile":    "verifnd.OsWriteFile",
 	"os.Stat":         "verifnd.OsStat",
 	"os.Remove":       "verifnd.OsRemove",
@@ -63,6 +66,20 @@ var callRewrites = map[string]string{
 var rewriteDirs = []string{
 	"internal/app", "internal/app/optimization", "internal/app/dcs", "internal/app/node_state",
 	"internal/app/resetup", "internal/mysql", "internal/dcs", "internal/util",
+}
+
+// textual rewrites (applied as line-preserving splices); fail closed when a pattern is not found
+type textRewrite struct {
+	File     string
+	From, To string
+	KeepImport string // appended as `var _ = <KeepImport>` so the import stays used
+}
+
+var textRewrites = []textRewrite{
+	{"internal/dcs/zk.go", "z.conn.", "verifConn(z).", ""},
+	{"internal/dcs/zk.go", "json.Marshal(", "verifJSONMarshal(", "json.Marshal"},
+	{"internal/dcs/zk.go", "json.Unmarshal(", "verifJSONUnmarshal(", ""},
+	{"internal/dcs/zk.go", "z.closeTimer.Stop()", "verifnd.StopTimer(z.closeTimer)", ""},
 }
 
 type splice struct {
@@ -161,6 +178,33 @@ func instrumentRepo() (map[string][]byte, *instrInfo, error) {
 			needVerifnd = true
 			return true
 		})
+		// (3) textual rewrites
+		var keep []string
+		for _, tr := range textRewrites {
+			if tr.File != rel {
+				continue
+			}
+			n := 0
+			for off := 0; ; {
+				k := bytes.Index(src[off:], []byte(tr.From))
+				if k < 0 {
+					break
+				}
+				sp = append(sp, splice{off: off + k, del: len(tr.From), text: tr.To})
+				off += k + len(tr.From)
+				n++
+			}
+			if n == 0 {
+				return nil, nil, fmt.Errorf("instrument: pattern %q not found in %s (fail closed)", tr.From, rel)
+			}
+			info.Rewrites[tr.From] += n
+			if strings.Contains(tr.To, "verifnd.") {
+				needVerifnd = true
+			}
+			if tr.KeepImport != "" {
+				keep = append(keep, tr.KeepImport)
+			}
+		}
 		// (1) hook prologues
 		dir := filepath.Dir(rel)
 		for _, d := range af.Decls {
@@ -283,6 +327,9 @@ func instrumentRepo() (map[string][]byte, *instrInfo, error) {
 			if imports["os"] == "os" {
 				buf.WriteString("\nvar _ = os.Getenv\n")
 			}
+		}
+		for _, k := range keep {
+			buf.WriteString("\nvar _ = " + k + "\n")
 		}
 		out[abs] = buf.Bytes()
 		info.Files[rel] = fmt.Sprintf("%x", sha256.Sum256(src))
